@@ -86,6 +86,10 @@ def run(c):
     # run-once at loop level: LSLoop with only_once - the loop returns exactly when nothing is left to wait for
     import loopx
     loopx.run_extra(c, 'C16', 'once')
+    # settings under which the property cannot hold are refused by Config.Check (what the daemon runs first)
+    _g = vlib.run_harness(['config-gate'], timeout=120)
+    _g['mismatches'] = [m for m in _g['mismatches'] if (m.get('sig') or {}).get('prop') in ('C16', 'conformance')]
+    vlib.absorb(c, _g)
     c.assumptions += ['the recorded state is observed after the goroutines settled (stable for 30 ms; after a rejection everything is recorded again with a 150 ms window and only a rejection there is reported); a state that does not settle is inconclusive',
                       'transient failures: bounded number of faults in the liveness model']
     c.extra['rule'] = 'seeded random external actions on the real Receiver; each trace = 60-80 events, validated by TLC'
